@@ -1574,12 +1574,23 @@ impl Printer {
                 }
             }
             Stmt::AssignLambdaCall(v, func, arg, site) => {
-                let a = self.expr(arg);
                 let ix = *site as usize;
                 if self.call_line.len() <= ix + 1 {
                     self.call_line.resize(ix + 2, 0);
                 }
                 self.call_line[ix] = self.cur_line();
+                if site % 4 == 1 {
+                    // a parenthesised call spread over several lines, with a typed one-line
+                    // function literal on a line of its own: the call site is the FIRST line
+                    self.line(indent, &format!("i{v} = C_APPLY("));
+                    let a = self.expr(arg);
+                    self.line(indent + 1, &format!("{a},"));
+                    self.lambda_call_line.insert(*site, self.cur_line());
+                    self.line(indent + 1, &format!("|x: Number| f{func}(x)"));
+                    self.line(indent, ")");
+                    return;
+                }
+                let a = self.expr(arg);
                 // (a type hint on the function literal's argument in half of the sites)
                 let hint = if site % 2 == 0 { ": Number" } else { "" };
                 self.line(indent, &format!("i{v} = C_APPLY {a}, |x{hint}|"));
